@@ -297,6 +297,7 @@ class CFG:
         self.raise_exit = None
         self.by_ast = {}   # id(ast stmt/expr) -> [Node]
         self.flags = {}    # flag name -> its test nodes
+        self.flag_defs = {}   # flag name -> the expression it was bound to
 
     def mark_flags(self):
         """A local that is bound exactly once (outside loops) and tested bare in two or more places is a *flag*: `stopping = self.running … if stopping: … if stopping:`.
@@ -310,12 +311,14 @@ class CFG:
             if isinstance(w, ast.Name) and isinstance(w.ctx, (ast.Store, ast.Del)):
                 stores[w.id] = stores.get(w.id, 0) + 1
         bound_once = set()
+        defs = {}
         for n in self.nodes:
             if n.kind == 'stmt' and isinstance(n.ast, ast.Assign) and len(n.ast.targets) == 1 and isinstance(n.ast.targets[0], ast.Name) \
                     and not any(k == 'loop' for k, _a in n.ctx):
                 nm = n.ast.targets[0].id
                 if stores.get(nm) == 1 and nm not in params:
                     bound_once.add(nm)
+                    defs[nm] = n.ast.value
         tests = {}
         for n in self.nodes:
             n.cfg = self
@@ -324,6 +327,7 @@ class CFG:
         for nm, ts in tests.items():
             if len(ts) >= 2:
                 self.flags[nm] = ts
+                self.flag_defs[nm] = defs[nm]
                 for t in ts:
                     t.flag = nm
 
